@@ -21,6 +21,52 @@ use std::sync::Arc;
 pub enum Plan2<P> {
     Wire(P),
     Client(ClientPlan),
+    /// A firmware upload on the wire engine (the library's second writer of packets: the data blocks
+    /// of `WriteFile::into_stream`), judged by C11's oracle.
+    Upload(crate::c11::C11Plan),
+}
+
+/// Data blocks of every size 0..=300 and around 1 KiB / 4 KiB / 32 KiB: whatever writes them, header
+/// and body agree (the terminal's reference framing recovers id, offset and exactly the bytes).
+fn upload_families(id: &str) -> Vec<Family<crate::c11::C11Plan>> {
+    use crate::c11::{C11Plan, End, Req, ID_TABLE};
+    use crate::exchange::Mode;
+    if id != "C04" {
+        return vec![];
+    }
+    let mut blocks: Vec<u32> = (1..=300).collect();
+    blocks.extend([1000, 1023, 1024, 4095, 4096, 32767, 32768]);
+    let n = blocks.len() as u64 * 2;
+    vec![Family::new("upload_data_blocks_of_every_size", n, true, move |i, rng| {
+        let block = blocks[(i / 2) as usize];
+        // a tail of 1 byte / of block-1 bytes (for block 1: an empty tail)
+        let tail = if i % 2 == 0 { 1.min(block - 1) } else { block - 1 };
+        let size = 2 * block + tail;
+        let pi = (i % 21) as u8;
+        let fid = ID_TABLE[pi as usize].1;
+        C11Plan {
+            content_seed: rng.next_u64(),
+            files: vec![(pi, size)],
+            extra: vec![],
+            block,
+            password: 123456,
+            requests: vec![
+                Req::Data { id: fid, offset: 0 },
+                Req::Data { id: fid, offset: 2 * block },
+                Req::Data { id: fid, offset: block },
+                Req::Data { id: fid, offset: size },
+                Req::Data { id: fid, offset: size.saturating_sub(1) },
+            ],
+            end: End::Completion,
+            mode: Mode::Lockstep,
+            sched: crate::conn::Sched::whole(),
+            paced_cuts: vec![],
+            paced_gaps_ms: vec![],
+            cut: None,
+            fs_faults: vec![],
+            symlinks: vec![],
+        }
+    })]
 }
 
 pub struct ViaClient<C: Check> {
@@ -204,18 +250,24 @@ impl<C: Check> Check for ViaClient<C> {
             let make = f.make;
             out.push(Family { name: f.name, count: f.count, exhaustive: f.exhaustive, make: Box::new(move |i, r| Plan2::Client(make(i, r))) });
         }
+        for f in upload_families(self.inner.id()) {
+            let make = f.make;
+            out.push(Family { name: f.name, count: f.count, exhaustive: f.exhaustive, make: Box::new(move |i, r| Plan2::Upload(make(i, r))) });
+        }
         out
     }
     fn run(&self, plan: &Self::Plan, want_trace: bool) -> RunOut {
         match plan {
             Plan2::Wire(p) => self.inner.run(p, want_trace),
             Plan2::Client(p) => c09::C09.run(p, want_trace),
+            Plan2::Upload(p) => crate::c11::C11.run(p, want_trace),
         }
     }
     fn shrink(&self, plan: &Self::Plan) -> Vec<Self::Plan> {
         match plan {
             Plan2::Wire(p) => self.inner.shrink(p).into_iter().map(Plan2::Wire).collect(),
             Plan2::Client(p) => c09::C09.shrink(p).into_iter().map(Plan2::Client).collect(),
+            Plan2::Upload(p) => crate::c11::C11.shrink(p).into_iter().map(Plan2::Upload).collect(),
         }
     }
     fn rule_text(&self) -> String {
